@@ -13,10 +13,12 @@ CONSTANTS
   MaxTx = 8
   SupplyCap = 12
   DataVals = {7, 8}
+  ConsArgs <- ConsFN
+  ConArgs <- ConBoth
   InitLedgers <- InitFNU
   FailOdds = 4
   EndOdds = 3
   Weights <- WAll
-  Scripts <- ScWX
+  Scripts <- ScWV
 INVARIANT BEmit
 CHECK_DEADLOCK FALSE
